@@ -225,6 +225,8 @@ CastExprs(t) ==
       Fn1("dt_year", c("d")), Fn1("dt_month", c("d")), Fn1("dt_day", c("d")), Fn1("dt_year", c("dt")), Fn1("dt_month", c("dt")), Fn1("dt_day", c("dt")),
       Fn1("dt_hour", c("dt")), Fn1("dt_minute", c("dt")), Fn1("dt_second", c("dt")), Fn1("dt_year", Cast(c("d"), "datetime")),
       Fn1("dt_millisecond", c("dt")), Fn1("dt_millisecond", LitDt), Fn1("dt_millisecond", [k |-> "lit", ty |-> "datetime", v |-> [y |-> 2021, m |-> 3, d |-> 4, H |-> 0, M |-> 0, S |-> 1, us |-> 1000]]),
+      \* a duration added to a datetime, in both orders (the type is what the model states; the value is left to the back end)
+      Fn2("add", Fn2("sub", c("dt"), LitDt), c("dt")), Fn2("add", c("dt"), Fn2("sub", c("dt"), LitDt)), Fn2("add", Fn2("sub", c("dt"), LitDt), Fn2("sub", LitDt, c("dt"))),
       \* non-strict casts of values that do convert (the same result), also from the generic integer type of an expression
       CastNS(Fn2("floordiv", c("i"), LitI(2)), "int"), CastNS(c("f"), "int"), CastNS(c("sn"), "int"), CastNS(c("i"), "float"), CastNS(c("b"), "int"),
       \* differences of dates / datetimes (durations), also across the change of month, year and leap day, and with null
